@@ -3,7 +3,8 @@
 //! primitive crates only.
 //! usage: refdecode [--password PW | --password-hex HEX] [--structure] part1 [part2 ...]
 //! Output: the JSON lines of harness/src/bin/dump.rs (one object per entry, solid headers as
-//! {"solid_header":..}), then {"end":"OK"|"ERR .."} and {"wf":true|false,"why":".."}.
+//! {"solid_header":..}), then {"end":"OK"|"ERR .."} and {"wf":true|false,"why":"..","verdict":"1"|"0 <reason>"}
+//! (wf = structure AND decoding; verdict = the structural verdict alone, the one compared with Wf.v).
 //! --structure: {"types":[[..chunk types of part 1..],..]} and the verdict
 //! {"wf":..,"why":..,"verdict":"1"|"0 <reason>"} only (no decoding).
 use pnaverif::refdec::*;
@@ -67,6 +68,6 @@ fn main() {
     } else {
         println!("{{\"end\":\"ERR InvalidData\",\"msg\":{}}}", json_str(&why));
     }
-    println!("{{\"wf\":{},\"why\":{}}}", wf, json_str(&why));
+    println!("{{\"wf\":{},\"why\":{},\"verdict\":{}}}", wf, json_str(&why), json_str(&verdict(&strict_decode(&parts))));
     std::process::exit(if wf { 0 } else { 1 });
 }
